@@ -90,6 +90,20 @@ CLAIMED["C15"] = dict(
         "prepared-statement text and string parameters (inline and long data split inside a character) and decodes column names, error messages and cells.",
    note=TB + "Python's codecs are trusted and compared with the reference codec per sampled repertoire. latin1 is exercised outside 0x80-0x9F (MySQL's latin1 is cp1252 there). ucs2/utf16/utf16le/utf32 cannot frame the NUL-terminated strings of the handshake and are exercised as results / column sets and as client sets for length-delimited fields only.",
    design="DESIGN.md section 4, C15")
+CLAIMED["C16"] = dict(
+   technique="Lean 4 proof (nested association-list induction for the flattened mapping; dedup lemmas; induction on LIKE patterns relating the spec to the translated regex's match relation; kernel-evaluated facts about the extracted built-in catalog) + extracted built-ins / WHERE templates / like_to_regex branches + differential execution over random mappings and patterns",
+   text="Theorems in lean/MimicProps/C16.lean: for every well-formed mapping (unique keys per level) and declared table, the catalog's columns for that "
+        "(catalog, database, table) are exactly the declared ones in declaration order (table_columns_exactly_declared), membership iff declared, ordinals "
+        "count from 0; every database / table key exactly once (dedup lemmas); each SHOW form denotes exactly its FROM / LIKE subset (show_*_exact); "
+        "like_regex_equiv: for all patterns and strings the translated regex under fullmatch accepts iff SQL LIKE does, plus like_literal / like_percent / "
+        "like_underscore; built-in databases are always listed (over the extracted INFO_SCHEMA). Tie: extraction + a real session over random mappings of "
+        "depth 2/3/4 (names with _ and $, shared names across databases and catalogs), schemas that change between statements (mutated in place or handed "
+        "out as fresh copies), all current-database settings; SHOW DATABASES / [FULL] TABLES / [FULL] COLUMNS (FROM, IN, db.t), DESCRIBE, COM_FIELD_LIST "
+        "(every column definition decoded strictly), INFORMATION_SCHEMA.SCHEMATA / TABLES / COLUMNS incl. ordinal positions, SHOW VARIABLES LIKE; like_to_regex "
+        "and the executor's LIKE directly against the model. An independent oracle (expected rows computed from the mapping with its own LIKE matcher) runs "
+        "on every answer.",
+   note=TB + "sqlglot's executor evaluates the catalog SELECTs and its parser decides which SHOW spellings exist (SHOW COLUMNS IN is not parsed). A depth-2 mapping lives in a database named ''. Known finding D16c (empty databases / tables are not listed); defect D16b (dict_depth) found and fixed while building this check.",
+   design="DESIGN.md section 4, C16")
 CLAIMED["C05"] = dict(
    technique="Lean 4 proof (round-trip theorems for NULL bitmap, binary rows of all encoder classes, text framing, decimal text, durations; row-preservation of inference) + extracted encoder tables + byte-for-byte differential execution",
    text="Theorems in lean/MimicProps/C05.lean: NULL-bitmap round trip for every size/offset/pattern; binary rows of well-formed values of every supported "
